@@ -446,7 +446,7 @@ fn script_set(three: bool) -> BoxedStrategy<ScriptSet> {
 pub fn run(ctx: &Ctx, rep: &mut Report) {
     rep.assume("the handler is driven through &mut self, so the harness owns the schedule: an interleaving is an order of whole exchanges (request in, response out)");
     rep.assume("each transfer's requests are fixed by running it alone first with an adaptive client; the application's reply is a function of the transfer and of the request it is shown");
-    let n = ctx.cases(600, 4_000);
+    let n = ctx.cases(600, 20_000);
     run_prop(
         ctx,
         rep,
@@ -456,7 +456,7 @@ pub fn run(ctx: &Ctx, rep: &mut Report) {
         || script_set(false),
         check_set,
     );
-    let n = ctx.cases(160, 1_200);
+    let n = ctx.cases(160, 6_000);
     run_prop(
         ctx,
         rep,
